@@ -13,20 +13,20 @@ deep-merged (equal to merging the selection sets for valid operations).
 namespace PebblesVerif.Spec
 open PebblesVerif
 
-/-- canonical JSON text (object keys as given; strings quoted) -/
+def insertSorted (kv : String × J) : List (String × J) → List (String × J)
+  | [] => [kv]
+  | x :: xs => if kv.1 < x.1 then kv :: x :: xs else x :: insertSorted kv xs
+
+def sortKVs (l : List (String × J)) : List (String × J) := l.foldl (fun acc kv => insertSorted kv acc) []
+
+/-- canonical JSON text: object keys sorted at every level (what Go's encoding/json produces for maps) -/
 partial def renderJ : J → String
   | .null => "null"
   | .bool b => if b then "true" else "false"
   | .num r => r
   | .str s => "\"" ++ s ++ "\""
   | .arr xs => "[" ++ ",".intercalate (xs.map renderJ) ++ "]"
-  | .obj kvs => "{" ++ ",".intercalate (kvs.map (fun (k, v) => "\"" ++ k ++ "\":" ++ renderJ v)) ++ "}"
-
-def insertSorted (kv : String × J) : List (String × J) → List (String × J)
-  | [] => [kv]
-  | x :: xs => if kv.1 < x.1 then kv :: x :: xs else x :: insertSorted kv xs
-
-def sortKVs (l : List (String × J)) : List (String × J) := l.foldl (fun acc kv => insertSorted kv acc) []
+  | .obj kvs => "{" ++ ",".intercalate ((sortKVs kvs).map (fun (k, v) => "\"" ++ k ++ "\":" ++ renderJ v)) ++ "}"
 
 /-- `fed.CanonArgs` -/
 def canonArgs (args : List (String × J)) : String :=
@@ -41,7 +41,7 @@ structure Env where
 mutual
   /-- `(*ast.Value).Value(vars)`: `none` = variable not provided and no default (argument omitted) -/
   def valueToJ (env : Env) : Value → Option J
-    | .var n =>
+    | .var n _ =>
       match J.lookup n env.vars with
       | some v => some v
       | none =>
@@ -64,7 +64,7 @@ mutual
     | (k, v) :: fs => (k, (valueToJ env v).getD .null) :: fieldsToJ env fs
   /-- default values are constants (no variables) -/
   def constToJ : Value → Option J
-    | .var _ => none
+    | .var _ _ => none
     | .int s => some (.num s)
     | .float s => some (.num s)
     | .str s => some (.str s)
@@ -192,26 +192,25 @@ def echoArgs (env : Env) (args : List Arg) (j : J) : J :=
   | _ :: _, .str s => .str (s ++ "|" ++ canonArgs (argsToJ env args))
   | _, _ => j
 
+/-- the value of one field on an object (`objK` evaluates the sub-selection on an object value) -/
+def fieldValue (env : Env) (o : Obj) (name : String) (args : List Arg) (type : TypeRef)
+    (objK : Obj → Option (List (String × J))) : Option J :=
+  if name == "__typename" then some (.str o.typeName) else
+  match o, name with
+  | .ent _ id _, "id" =>
+    if id != "" then some (.str id)
+    else completeWith env.data objK (echoArgs env args) type (storedValue env o name args)
+  | _, _ => completeWith env.data objK (echoArgs env args) type (storedValue env o name args)
+
 mutual
   /-- evaluate one selection on an object, adding to the response object under construction;
       `none` = non-null violation propagates upwards -/
   def evalSel (env : Env) (o : Obj) : Sel → List (String × J) → Option (List (String × J))
     | .field alias name args dirs type _ sub, acc =>
       if skipped env dirs then some acc else
-      let key := if alias == "" then name else alias
-      if name == "__typename" then some (addKey acc key (.str o.typeName)) else
-      match o, name with
-      | .ent _ id _, "id" =>
-        if id != "" then some (addKey acc key (.str id)) else
-        match completeWith env.data (fun o' => evalSels env o' sub []) (echoArgs env args) type
-            (storedValue env o name args) with
-        | none => none
-        | some v => some (addKey acc key v)
-      | _, _ =>
-        match completeWith env.data (fun o' => evalSels env o' sub []) (echoArgs env args) type
-            (storedValue env o name args) with
-        | none => none
-        | some v => some (addKey acc key v)
+      match fieldValue env o name args type (fun o' => evalSels env o' sub []) with
+      | none => none
+      | some v => some (addKey acc (if alias == "" then name else alias) v)
     | .inline cond _ _ dirs sub, acc =>
       if skipped env dirs || !applies env o cond then some acc else evalSels env o sub acc
     | .spread _ cond _ _ dirs sub, acc =>
